@@ -18,7 +18,7 @@ import (
 
 func init() {
 	register(&Prop{
-		ID: "C19", Level: "fault_enumeration", Quick: 80 * 33, Thorough: 2500 * 33,
+		ID: "C19", Level: "fault_enumeration", Quick: 80 * 36, Thorough: 2500 * 36,
 		Rule:        "trial = (command form, generated valid input); every Write call index k=1..W+1 of the fault-free run x {write_error_once, write_error_sticky, short_write} (+ every Create for toPairAlign directory output) is enumerated, each under several seeded schedules; a trial is non-trivial if at least one injected fault actually fired; distinct = distinct (input, options)",
 		Gen:         genC19,
 		Check:       checkC19,
@@ -32,12 +32,27 @@ func init() {
 // the command forms C19 ranges over: the library entry points, and the real command line writing to --outfile
 var c19Forms = append(append([]string{}, allCmds...), "cli-o:toma", "cli-o:variants", "cli-o:samvariants", "cli-o:snps", "cli-o:snps-agg", "cli-o:closest", "cli-o:closestn", "cli-o:updownlist", "cli-o:topranking", "indels", "cli:indels",
 	// ... and writing to standard output (no --outfile)
-	"cli:toma", "cli:topa-stdout", "cli:variants", "cli:samvariants", "cli:snps", "cli:closest", "cli:closestn", "cli:updownlist", "cli:topranking")
+	"cli:toma", "cli:topa-stdout", "cli:variants", "cli:samvariants", "cli:snps", "cli:closest", "cli:closestn", "cli:updownlist", "cli:topranking",
+	// every command: the licence text, and `sam indels` with its insertions table on standard output
+	"cli:licences", "cli:indels-stdout")
 
 func genC19(r *Rand, tier string, ord int) *Trial {
 	form := c19Forms[ord%len(c19Forms)]
 	var c *Case
-	if strings.HasPrefix(form, "cli:") {
+	if form == "cli:licences" {
+		c = &Case{Cmd: "cli", Files: map[string]string{}, Opts: Opts{Args: []string{"licences"}, Threads: 1}}
+	} else if form == "cli:indels-stdout" {
+		cc, ok := cliCase(genCmdCase(r, "indels", caseSize{}))
+		if !ok {
+			return nil
+		}
+		for i, a := range cc.Opts.Args {
+			if a == "--insertions-out" {
+				cc.Opts.Args[i+1] = "stdout"
+			}
+		}
+		c = cc
+	} else if strings.HasPrefix(form, "cli:") {
 		cc, ok := cliCase(genCmdCase(r, strings.TrimPrefix(form, "cli:"), caseSize{}))
 		if !ok {
 			return nil
@@ -79,7 +94,7 @@ func genC19(r *Rand, tier string, ord int) *Trial {
 			wFiles++
 		}
 	}
-	if strings.HasSuffix(form, "indels") {
+	if strings.HasSuffix(form, "indels") { // (not cli:indels-stdout: there standard output is a destination of the command)
 		// `sam indels` prints a deprecation notice on standard output and writes its two tables to files:
 		// the notice is not the command's output, only the file writes are enumerated
 		wOut = 0
